@@ -6,6 +6,7 @@ import DeepModel.Props.C01
 #print axioms C01.c01_trace_kept
 #print axioms C01.c01_none_only_without_tracepoints
 #print axioms C01.c01_actions_isolated
+#print axioms C01.c01_matching_isolated
 #print axioms C01.c01_results_isolated
 #print axioms C01.c01_callbacks_progress
 #print axioms C01.c01_callbacks_self_heal
